@@ -283,6 +283,11 @@ impl StreamsState {
         self.pending.clear();
         self.send_streams = 0;
         self.data_sent = 0;
+        // None of the early data will ever be acknowledged
+        self.unacked_data = 0;
+        // The limit remembered from the previous session no longer applies; the server's fresh
+        // transport parameters, which may be lower, are about to be installed
+        self.max_data = 0;
         self.connection_blocked.clear();
     }
 
